@@ -1205,6 +1205,66 @@ theorem particles_consistent {m : Mdl} {t : Tree} (h : Reach m t) : ∀ (q : Pat
     exact Follows.step q k st (ih st.s h1) h2 h3 h5
 
 
+/-! ### The ghost list `rets` really is "the returns sampled through the action" -/
+
+/-- a `simulate` call on node `p` only touches the return lists of `p` and of nodes below `p` -/
+theorem Sim.rets_frame {m : Mdl} {H : Nat} {t t' : Tree} {p : Path} {s depth : Nat} {used : List Step} {r : Rat}
+    (h : Sim m H t p s depth used t' r) : ∀ q, ¬ p <+: q → t'.rets q = t.rets q := by
+  induction h with
+  | stop t p s depth st t1 _ _ _ hd =>
+    intro q hq
+    obtain ⟨_, _, _, e4, _⟩ := descend_spec hd
+    have hne : q ≠ p := fun h => hq (h ▸ List.prefix_refl _)
+    show upd t1.rets p _ q = t.rets q
+    simp only [upd, hne, if_false]; rw [e4]; rfl
+  | roll t p s depth st t1 n used fr _ _ _ hd _ =>
+    intro q hq
+    obtain ⟨_, _, _, e4, _⟩ := descend_spec hd
+    have hne : q ≠ p := fun h => hq (h ▸ List.prefix_refl _)
+    show upd t1.rets p _ q = t.rets q
+    simp only [upd, hne, if_false]; rw [e4]; rfl
+  | deeper t p s depth st t1 t2 used fr _ _ _ hd _ ih =>
+    intro q hq
+    obtain ⟨_, _, _, e4, _⟩ := descend_spec hd
+    have hne : q ≠ p := fun h => hq (h ▸ List.prefix_refl _)
+    have hq' : ¬ (p ++ [(st.a, m.key st)]) <+: q := fun h => hq (List.IsPrefix.trans (List.prefix_append _ _) h)
+    show upd t2.rets p _ q = t.rets q
+    simp only [upd, hne, if_false]; rw [ih q hq', e4]; rfl
+
+/-- **each `simulate` call on node `p` choosing action `a` adds exactly its own return to `rets p a`** (and to no
+    other action of `p`): with `v_is_mean`, an action estimate is the mean of the returns of exactly the simulations
+    that went through it. -/
+theorem Sim.records_return {m : Mdl} {H : Nat} {t t' : Tree} {p : Path} {s depth : Nat} {used : List Step} {r : Rat}
+    (h : Sim m H t p s depth used t' r) :
+    ∃ st, used.head? = some st ∧ t'.rets p st.a = r :: t.rets p st.a ∧ ∀ b, b ≠ st.a → t'.rets p b = t.rets p b := by
+  induction h with
+  | stop t p s depth st t1 _ _ _ hd =>
+    obtain ⟨_, _, _, e4, _⟩ := descend_spec hd
+    refine ⟨st, rfl, ?_, fun b hb => ?_⟩
+    · show upd t1.rets p _ p st.a = _
+      simp only [upd, if_true, updN]; rw [e4]; rfl
+    · show upd t1.rets p _ p b = _
+      simp only [upd, if_true, updN, hb, if_false]; rw [e4]; rfl
+  | roll t p s depth st t1 n used fr _ _ _ hd _ =>
+    obtain ⟨_, _, _, e4, _⟩ := descend_spec hd
+    refine ⟨st, rfl, ?_, fun b hb => ?_⟩
+    · show upd t1.rets p _ p st.a = _
+      simp only [upd, if_true, updN]; rw [e4]; rfl
+    · show upd t1.rets p _ p b = _
+      simp only [upd, if_true, updN, hb, if_false]; rw [e4]; rfl
+  | deeper t p s depth st t1 t2 used fr _ _ _ hd hS _ =>
+    obtain ⟨_, _, _, e4, _⟩ := descend_spec hd
+    have hnp : ¬ (p ++ [(st.a, m.key st)]) <+: p := by
+      intro hk
+      have := hk.length_le
+      simp at this
+    have hf := hS.rets_frame p hnp
+    refine ⟨st, rfl, ?_, fun b hb => ?_⟩
+    · show upd t2.rets p _ p st.a = _
+      simp only [upd, if_true, updN]; rw [hf, e4]; rfl
+    · show upd t2.rets p _ p b = _
+      simp only [upd, if_true, updN, hb, if_false]; rw [hf, e4]; rfl
+
 /-! ### No simulation continues after a terminal state (MCTS; POMCP once its rollout is guarded) -/
 
 /-- only the last call of the list may have reported a terminal next state -/
